@@ -63,6 +63,20 @@ var ampTmpls = []ampTmpl{
 	{name: "tostring..loop", src: `local s = "" for i = 1, N do s = s .. "x" end return #s`, retBytes: true},
 	{name: "double..64", src: `local s = "x" for i = 1, 64 do s = s .. s end return #s`, maxN: 1000, retBytes: true},
 	{name: "rep(N/100):gsub(x,y100)", src: `local s = ("x"):rep(N // 100) return #(s:gsub("x", ("y"):rep(100)))`, retBytes: true},
+	// ---- memory held across failing loads (a failing compile must not release
+	// more than it required); the result is the number of bytes held
+	{name: "hold+load(compile-error)", src: `local keep, total = {}, 0
+local bad = "goto nowhere --" .. ("y"):rep(N // 50)
+for i = 1, 200 do keep[i] = ("a"):rep(N // 100) .. i total = total + #keep[i] assert(not load(bad)) end
+return total`, maxN: 100000000, retBytes: true},
+	{name: "hold+load(syntax-error)", src: `local keep, total = {}, 0
+local bad = "x = = --" .. ("y"):rep(N // 50)
+for i = 1, 200 do keep[i] = ("a"):rep(N // 100) .. i total = total + #keep[i] assert(not load(bad)) end
+return total`, maxN: 100000000, retBytes: true},
+	{name: "hold+load(binary-garbage)", src: `local keep, total = {}, 0
+local bad = string.dump(function() end):sub(1, 20) .. ("y"):rep(N // 50)
+for i = 1, 200 do keep[i] = ("a"):rep(N // 100) .. i total = total + #keep[i] pcall(load, bad, "b", "b") end
+return total`, maxN: 100000000, retBytes: true},
 	// ---- format
 	{name: "format(%Nd)", src: `return #string.format("%" .. N .. "d", 1)`, retBytes: true},
 	{name: "format(%Ns)", src: `return #string.format("%" .. N .. "s", "x")`, retBytes: true},
